@@ -659,7 +659,7 @@ Section DirProofs.
                  unfold mget in Hg. rewrite <- (bget_same k l m Hl Hm Hs) in Hg. rewrite Hg in Edec.
                  rewrite (same_length l m Hl Hm Hs) in Edec. rewrite Hcap in Edec.
                  destruct (c_nosize c); [discriminate|]. rewrite orb_true_r in Edec. discriminate.
-               - specialize (Hk eq_refl). cbn [is_hamt] in Hk. rewrite <- Hk. reflexivity. }
+               - specialize (Hk Hdyn). cbn [is_hamt] in Hk. rewrite <- Hk. reflexivity. }
              rewrite Hcapped. cbn [andb]. rewrite Hcap.
              exists m. split; [reflexivity|]. split; [exact HR|]. auto.
       + (* HAMT *)
